@@ -28,7 +28,10 @@ Record case12 := Case12 {
   k_sched : list event;     (* the schedule, at the model's granularity; store starts empty *)
   k_obs : list obs;         (* per reader, at the end of the schedule *)
   k_height : N;             (* Store.Height() at the end *)
-  k_head : N                (* Head().Height() at the end, 0 = ErrEmptyStore *)
+  k_head : N;               (* Head().Height() at the end, 0 = ErrEmptyStore *)
+  k_ret : list nat;         (* per reader: length of the schedule emitted when it was first seen returned *)
+  k_probe : bool            (* every cancel probe (a call with an ended context, issued while another
+                               call is held inside a datastore read) returned within its bound *)
 }.
 
 (** compact rendering of a long run of headers whose id equals their height *)
@@ -58,10 +61,31 @@ Definition model12 (c : case12) : list obs * N * N :=
   let s := final c in
   (map obs_of (st_readers s), st_hsh s, hsh_of (st_head s)).
 
+(** reader i's observation after the first [p] events *)
+Definition obs_at (c : case12) (p i : nat) : obs :=
+  match nth_error (st_readers (run (firstn p (k_sched c)) (init None None [] (k_ns c) []))) i with
+  | Some r => obs_of r
+  | None => OOther
+  end.
+
+Definition ret_of (c : case12) (i : nat) : nat := nth i (k_ret c) (length (k_sched c)).
+
+Fixpoint forall_idx {A B} (f : nat -> A -> B -> bool) (i : nat) (l : list A) (m : list B) : bool :=
+  match l, m with
+  | [], [] => true
+  | a :: r, b :: q => f i a b && forall_idx f (S i) r q
+  | _, _ => false
+  end.
+
+(** a call the driver saw returned at a checkpoint has returned, with that result, in the model too *)
+Definition ret_agree (c : case12) : bool :=
+  forall_idx (fun i (_ : N) o => match o with ODone _ => obs_eqb (obs_at c (ret_of c i) i) o | _ => true end)
+             0 (k_ns c) (k_obs c).
+
 Definition agree12 (c : case12) : bool :=
   let s := final c in
   settled s && list_eqb obs_eqb (map obs_of (st_readers s)) (k_obs c)
-  && (st_hsh s =? k_height c) && (hsh_of (st_head s) =? k_head c).
+  && (st_hsh s =? k_height c) && (hsh_of (st_head s) =? k_head c) && ret_agree c.
 
 (** reader i has been let past its first lookup: at least two of its steps *)
 Definition released (sched : list event) (i : nat) : bool := Nat.leb 2 (rd_count sched i).
@@ -69,12 +93,24 @@ Definition released (sched : list event) (i : nat) : bool := Nat.leb 2 (rd_count
 Definition hid_mem (x : hid) (l : list hid) : bool :=
   existsb (fun y => (fst x =? fst y) && (snd x =? snd y)) l.
 
+(** is there an instant, between reader i's first own step and position [hi], at which Height()
+    had reached n and n was absent? (the store's history only: appends, flush steps) *)
+Fixpoint absent_at (n : N) (lo hi pos : nat) (s : state) (sched : list event) : bool :=
+  (Nat.leb lo pos && Nat.leb pos hi && (n <=? st_hsh s) && match lookup s n with None => true | Some _ => false end)
+  || match sched with
+     | [] => false
+     | e :: l => absent_at n lo hi (S pos) (step s e) l
+     end.
+
 (** the property for one call *)
 Definition reader_ok (c : case12) (i : nat) (n : N) (o : obs) : bool :=
   let app := enqueued (k_sched c) in
   match o with
   | ODone (RFound id) => hid_mem (n, id) app                        (* the header stored for n *)
-  | ODone RNotFound => n <=? k_height c                             (* only at or below Height() *)
+  | ODone RNotFound =>
+    (n <=? k_height c)                                              (* only at or below Height() ... *)
+    && absent_at n (first_own (k_sched c) i) (ret_of c i) 0         (* ... and absent at an instant of the call *)
+                 (init None None [] (k_ns c) []) (k_sched c)        (*     at which Height() had reached n    *)
   | ODone RCtx => cancelled_in (k_sched c) i                        (* only when its context ended *)
   | ODone RZero => n =? 0
   | OBlocked =>
@@ -85,15 +121,8 @@ Definition reader_ok (c : case12) (i : nat) (n : N) (o : obs) : bool :=
   | OOther => false
   end.
 
-Fixpoint forall_idx {A B} (f : nat -> A -> B -> bool) (i : nat) (l : list A) (m : list B) : bool :=
-  match l, m with
-  | [], [] => true
-  | a :: r, b :: q => f i a b && forall_idx f (S i) r q
-  | _, _ => false
-  end.
-
 Definition ok12 (c : case12) : bool :=
-  forall_idx (reader_ok c) 0 (k_ns c) (k_obs c).
+  forall_idx (reader_ok c) 0 (k_ns c) (k_obs c) && k_probe c.
 
 (** no open known-finding class (F5, the lost wake-up, was repaired by 33d75f6) *)
 Definition chk12 (c : case12) : bool * bool * N := (agree12 c, ok12 c, 0).
@@ -121,17 +150,57 @@ Qed.
 Lemma wf_empty : wf_init None None [].
 Proof. split; intros x H; discriminate. Qed.
 
-Definition model_case (ns : list N) (sched : list event) : case12 :=
+Definition model_case (ns : list N) (sched : list event) (rets : list nat) : case12 :=
   let s := run sched (init None None [] ns []) in
-  Case12 ns sched (map obs_of (st_readers s)) (st_hsh s) (hsh_of (st_head s)).
+  Case12 ns sched (map obs_of (st_readers s)) (st_hsh s) (hsh_of (st_head s)) rets true.
 
-Theorem model12_ok ns sched :
-  settled (run sched (init None None [] ns [])) = true -> ok12 (model_case ns sched) = true.
+Lemma forall_idx_elim {A B} (f : nat -> A -> B -> bool) : forall l m i j a b,
+  forall_idx f i l m = true -> nth_error l j = Some a -> nth_error m j = Some b -> f (i + j)%nat a b = true.
 Proof.
-  intros Hset. set (s := run sched (init None None [] ns [])) in *.
-  unfold ok12. apply forall_idx_intro.
+  induction l as [|x l IH]; intros [|y m] i [|j] a b H Ha Hb; cbn in *; try discriminate.
+  - apply andb_prop in H as [H _]. injection Ha as <-. injection Hb as <-. rewrite Nat.add_0_r. exact H.
+  - apply andb_prop in H as [_ H]. replace (i + S j)%nat with (S i + j)%nat by lia. eapply IH; eauto.
+Qed.
+
+Lemma absent_at_intro n lo hi : forall sched s pos k, (k <= length sched)%nat ->
+  (lo <= pos + k)%nat -> (pos + k <= hi)%nat ->
+  n <= st_hsh (run (firstn k sched) s) -> lookup (run (firstn k sched) s) n = None ->
+  absent_at n lo hi pos s sched = true.
+Proof.
+  induction sched as [|e l IH]; intros s pos k Hk Hlo Hhi Hh Hl.
+  - cbn in Hk. assert (k = 0)%nat by lia. subst k. cbn in *. rewrite Nat.add_0_r in *.
+    rewrite Hl. apply orb_true_intro. left.
+    repeat (apply andb_true_intro; split); try apply Nat.leb_le; try apply N.leb_le; auto.
+  - destruct k as [|k].
+    + cbn [firstn run fold_left] in Hh, Hl. rewrite Nat.add_0_r in *. cbn [absent_at]. rewrite Hl.
+      apply orb_true_intro. left.
+      repeat (apply andb_true_intro; split); try apply Nat.leb_le; try apply N.leb_le; auto.
+    + cbn [absent_at]. apply orb_true_intro. right.
+      apply (IH (step s e) (S pos) k); cbn in Hk; try lia; auto.
+Qed.
+
+Lemma first_own_firstn sched i : forall t,
+  (first_own sched i <= first_own (firstn t sched) i)%nat \/
+  first_own (firstn t sched) i = length (firstn t sched).
+Proof.
+  induction sched as [|e l IH]; intros [|t]; cbn; auto.
+  destruct (own_step e i); [left; lia|]. destruct (IH t) as [H|H]; [left; lia|right; lia].
+Qed.
+
+Lemma run_firstn_firstn k t sched s : (k <= t)%nat -> run (firstn k (firstn t sched)) s = run (firstn k sched) s.
+Proof. intros H. rewrite firstn_firstn. replace (Nat.min k t) with k by lia. reflexivity. Qed.
+
+Theorem model12_ok ns sched rets :
+  settled (run sched (init None None [] ns [])) = true ->
+  ret_agree (model_case ns sched rets) = true ->
+  ok12 (model_case ns sched rets) = true.
+Proof.
+  intros Hset Hret. set (s := run sched (init None None [] ns [])) in *.
+  unfold ok12. cbn [k_probe model_case]. rewrite andb_true_r. apply forall_idx_intro.
   - cbn. rewrite map_length. fold s. unfold s. rewrite run_length. cbn. rewrite map_length. reflexivity.
-  - intros j n o Hn Ho. cbn in Hn, Ho. fold s in Ho. rewrite nth_error_map in Ho.
+  - intros j n o Hn Ho.
+    pose proof (forall_idx_elim _ _ _ 0%nat j n o Hret Hn Ho) as Hrj. cbn [Nat.add] in Hrj.
+    cbn in Hn, Ho. fold s in Ho. rewrite nth_error_map in Ho.
     destruct (nth_error (st_readers s) j) as [r|] eqn:E; [|discriminate].
     cbn in Ho. injection Ho as <-. cbn [Nat.add].
     destruct (run_reader_back sched _ _ _ E) as (r0 & E0 & Hn0 & _).
@@ -145,7 +214,7 @@ Proof.
       destruct (run_reader_back sched _ _ _ E) as (r1 & E1 & _).
       destruct (two_steps_past_lookup sched _ j r1 E1 Erel) as (r' & E' & H1 & H2).
       fold s in E'. rewrite E in E'. injection E' as <-. destruct Hcase; congruence. }
-    unfold obs_of, model_case. fold s. cbn [reader_ok k_sched k_height].
+    unfold obs_of in *. unfold model_case in *. fold s in Hrj |- *.
     destruct (r_pc r) as [| | |ph sig| |x] eqn:Epc.
     + cbn [reader_ok k_sched]. rewrite Hnot2; auto.
     + cbn [reader_ok k_sched]. rewrite Hnot2; auto.
@@ -166,19 +235,35 @@ Proof.
       unfold blocked in Hb. rewrite Epc in Hb. discriminate.
     + unfold reader_settled in Hr. rewrite Epc in Hr. discriminate.
     + destruct (returns_only_when_due None None [] ns [] sched j r x wf_empty E Epc) as [_ H].
-      destruct x; cbn [reader_ok k_sched k_height].
+      destruct x; cbn [reader_ok k_sched k_height k_ns].
       * apply hid_mem_In. exact H.
-      * apply N.leb_le. exact H.
+      * apply andb_true_intro. split; [apply N.leb_le; exact H|].
+        (* the witness instant, taken from the prefix at which the driver saw the call returned *)
+        set (c := Case12 ns sched (map obs_of (st_readers s)) (st_hsh s) (hsh_of (st_head s)) rets true) in *.
+        set (t := ret_of c j) in *. set (p := firstn t sched).
+        unfold obs_at in Hrj. change (k_sched c) with sched in Hrj. change (k_ns c) with ns in Hrj. fold p in Hrj.
+        destruct (nth_error (st_readers (run p (init None None [] ns []))) j) as [rp|] eqn:Ep; [|cbn in Hrj; discriminate].
+        assert (Hpp : r_pc rp = RDone RNotFound).
+        { unfold obs_of in Hrj. destruct (r_pc rp) as [| | | | |[| | |]]; cbn in Hrj; try discriminate. reflexivity. }
+        destruct (notfound_only_when_absent None None [] ns [] p j rp wf_empty Ep Hpp) as (k & Hk & H1 & H2 & _).
+        assert (Hrn : r_n rp = r_n r).
+        { destruct (run_reader_back p _ _ _ Ep) as (rq & Eq & Hq & _). apply init_reader in Eq as [Eq _]. congruence. }
+        assert (Hlen : (length p <= t)%nat) by (unfold p; rewrite firstn_length; lia).
+        assert (Hlen2 : (length p <= length sched)%nat) by (unfold p; rewrite firstn_length; lia).
+        unfold p in H1, H2. rewrite run_firstn_firstn in H1, H2 by lia. rewrite Hrn in H1, H2.
+        apply (absent_at_intro (r_n r) _ _ sched _ 0%nat k); cbn [Nat.add]; try lia; auto.
+        destruct (first_own_firstn sched j t) as [Hf|Hf]; fold p in Hf; lia.
       * exact H.
       * apply N.eqb_eq. exact H.
 Qed.
 
-(** and it always agrees with itself *)
-Theorem model12_agree ns sched :
-  settled (run sched (init None None [] ns [])) = true -> agree12 (model_case ns sched) = true.
+(** and it always agrees with itself (for checkpoints at which the calls have returned) *)
+Theorem model12_agree ns sched rets :
+  settled (run sched (init None None [] ns [])) = true ->
+  ret_agree (model_case ns sched rets) = true -> agree12 (model_case ns sched rets) = true.
 Proof.
-  intros Hset. unfold agree12. change (final (model_case ns sched)) with (run sched (init None None [] ns [])).
-  rewrite Hset. cbn [k_obs k_height k_head model_case]. rewrite !N.eqb_refl, !andb_true_r. cbn.
+  intros Hset Hret. unfold agree12. change (final (model_case ns sched rets)) with (run sched (init None None [] ns [])).
+  rewrite Hset, Hret. cbn [k_obs k_height k_head model_case]. rewrite !N.eqb_refl, !andb_true_r. cbn.
   induction (st_readers (run sched (init None None [] ns []))) as [|r l IH]; cbn; [reflexivity|].
   rewrite IH, andb_true_r. unfold obs_of. destruct (r_pc r) as [| | | | |[id| | |]]; cbn; auto. apply N.eqb_refl.
 Qed.
